@@ -292,9 +292,9 @@ def tuples_through_both(ctx, n, idxs, procs=1):
 def report_side_effects(ctx, ops, impl):
     """aliasing / dtype violations found by `pure_call` are failures of the property's input contract with a concrete input"""
     for op, out in zip(ops, impl):
-        if out.startswith('aliasing'):
+        if 'aliasing:' in out:
             ctx.fail('aliasing', f'{op}: {out}', dict(op='side-effect', line=op, observed=out))
-        elif out.startswith('dtype'):
+        elif out.startswith('dtype') or '|dtype' in out:
             ctx.fail('dtype', f'{op}: {out}', dict(op='dtype', line=op, observed=out))
 
 
